@@ -470,12 +470,26 @@ fn run(args: &[String]) -> i32 {
     for h in handles {
         let _ = h.join();
     }
+    // A time-out must reproduce when the input is run again on its own (nothing else running):
+    // the limit is wall-clock time, and eight parallel workers on a busy machine can starve one.
+    let mut retried = vec![false; cases.len()];
+    {
+        let mut r = results.lock().unwrap();
+        for i in 0..cases.len() {
+            if r[i].as_ref().map(|o| o.outcome == "timeout").unwrap_or(false) {
+                let path = format!("{}/retry.batch", scratch);
+                let obs = run_chunk(&[cases[i].text.as_str()], &path, Duration::from_millis(limit_ms));
+                r[i] = obs.into_iter().next();
+                retried[i] = true;
+            }
+        }
+    }
     let _ = std::fs::remove_dir_all(&scratch);
 
     let mut w = open_out(outp);
     let results = results.lock().unwrap();
     let mut tool_errors = 0;
-    for (c, o) in cases.iter().zip(results.iter()) {
+    for (k, (c, o)) in cases.iter().zip(results.iter()).enumerate() {
         let o = o.clone().unwrap_or(Obs { outcome: "toolerror".into(), ..Default::default() });
         if o.outcome == "toolerror" || o.outcome == "?" {
             tool_errors += 1;
@@ -494,6 +508,7 @@ fn run(args: &[String]) -> i32 {
             "text": if inline { &cps[..] } else { &cps[..0] },
             "text_prefix": if inline { &cps[..0] } else { &cps[..200] },
             "gen": c.gen.clone().unwrap_or_default(),
+            "retried": retried[k],
             "msg": o.msg.clone().unwrap_or_default(),
         });
         writeln!(w, "{}", ev).unwrap();
